@@ -1,9 +1,14 @@
-from . import asyncchecks
+from . import asyncchecks, compiledchecks
 
 CHECKS = {
+    "C01": compiledchecks.c01,
     "C02": asyncchecks.c02,
     "C03": asyncchecks.c03,
     "C04": asyncchecks.c04,
     "C05": asyncchecks.c05,
     "C06": asyncchecks.c06,
+    "C07": compiledchecks.c07,
+    "C08": compiledchecks.c08,
+    "C09": compiledchecks.c09,
+    "C13": compiledchecks.c13,
 }
